@@ -12,7 +12,7 @@ from hypothesis import strategies as st
 
 from core import backends, faultfs
 from core.model import ModelStorage, deep_eq
-from core.runner import Check, Ctx, Violation
+from core.runner import Check, Ctx, Enum, Violation
 from core.sched import Scheduler, WorkerDied
 from core.storage_ops import Backend, full_dump_check, model_outcome, op, plan
 
@@ -494,7 +494,140 @@ def run_sqlite(case: dict[str, Any], ctx: Ctx) -> None:
         fac.release()
 
 
+# ------------------------------------------------------------------------------------------
+# SQLite set-up: the very first worker dies while it creates the schema / stamps the version
+# ------------------------------------------------------------------------------------------
+
+
+def sqlite_init_once(kill_at: int | None, tmpdir: str, cached: bool) -> dict[str, Any]:
+    """A forked victim opens a database file that does not exist yet with the public constructor
+    (tables + alembic stamp), creates a study and a trial, and SIGKILLs itself at SQL event
+    #kill_at.  Then a survivor opens the file with the same constructor, must see every
+    acknowledged write and nothing half-made, and works on; a final fresh opener sees it all."""
+    import optuna
+    from optuna.study import StudyDirection
+
+    path = os.path.join(tmpdir, f"init-{os.getpid()}-{kill_at}.db")
+    for suf in ("", "-journal", "-wal", "-shm"):
+        if os.path.exists(path + suf):
+            os.unlink(path + suf)
+    url = f"sqlite:///{path}"
+    rfd, wfd = os.pipe()
+    pid = os.fork()
+    if pid == 0:
+        try:
+            os.close(rfd)
+            import sqlalchemy
+
+            count = [0]
+
+            def hit(*a: Any, **k: Any) -> None:
+                if kill_at is not None and count[0] == kill_at:
+                    os.kill(os.getpid(), signal.SIGKILL)
+                count[0] += 1
+
+            for ev in ("before_cursor_execute", "after_cursor_execute", "commit", "begin", "rollback"):
+                sqlalchemy.event.listen(sqlalchemy.engine.Engine, ev, hit)
+            sv = optuna.storages.RDBStorage(url)
+            os.write(wfd, f"opened:{count[0]}\n".encode())
+            sid = sv.create_new_study([StudyDirection.MINIMIZE], "by-victim")
+            os.write(wfd, f"study:{sid}\n".encode())
+            tid = sv.create_new_trial(sid)
+            os.write(wfd, f"trial:{tid}\n".encode())
+            os.write(wfd, f"N:{count[0]}\n".encode())
+        finally:
+            os._exit(0)
+    os.close(wfd)
+    _, status = os.waitpid(pid, 0)
+    data = b""
+    while True:
+        chunk = os.read(rfd, 65536)
+        if not chunk:
+            break
+        data += chunk
+    os.close(rfd)
+    lines = dict(l.split(":", 1) for l in data.decode().splitlines() if l)
+    if kill_at is None:
+        return {"n": int(lines["N"]), "n_open": int(lines["opened"])}
+    killed = os.WIFSIGNALED(status)
+    where = f"first worker of a new SQLite file SIGKILLed at SQL event #{kill_at} ({'inside RDBStorage(url)' if 'opened' not in lines else 'after the constructor returned'}; acknowledged: {sorted(lines)})"
+    opened = []
+    try:
+        def open_() -> Any:
+            st_ = optuna.storages.RDBStorage(url)
+            opened.append(st_)
+            return optuna.storages._CachedStorage(st_) if cached else st_
+
+        try:
+            s2 = open_()
+            studies = {x.study_name: x._study_id for x in s2.get_all_studies()}
+        except BaseException as e:  # noqa: BLE001
+            raise Violation("database-unusable-after-crash-during-set-up", f"{where}: a later worker's RDBStorage(url) / first read raised {type(e).__name__}: {str(e)[:300]}", None)
+        if "study" in lines and studies.get("by-victim") != int(lines["study"]):
+            raise Violation("acknowledged-write-lost", f"{where}: create_new_study had returned {lines['study']}, a later worker sees studies {studies}", None)
+        if set(studies) - {"by-victim"}:
+            raise Violation("state-after-crash-neither-before-nor-after", f"{where}: studies {studies}", None)
+        if "by-victim" in studies:
+            ts = s2.get_all_trials(studies["by-victim"])
+            if "trial" in lines and [t._trial_id for t in ts] != [int(lines["trial"])]:
+                raise Violation("acknowledged-write-lost", f"{where}: create_new_trial had returned {lines['trial']}, a later worker sees {[t._trial_id for t in ts]}", None)
+            if len(ts) > 1 or any(t.number != 0 or t.state.name != "RUNNING" for t in ts):
+                raise Violation("state-after-crash-neither-before-nor-after", f"{where}: trials {ts}", None)
+        try:
+            sid = s2.create_new_study([StudyDirection.MAXIMIZE], "by-survivor")
+            tid = s2.create_new_trial(sid)
+            s2.set_trial_user_attr(tid, "k", [1, "x"])
+            s2.set_trial_state_values(tid, optuna.trial.TrialState.COMPLETE, [0.5])
+            s3 = open_()
+            t = s3.get_trial(tid)
+            names = sorted(x.study_name for x in s3.get_all_studies())
+        except BaseException as e:  # noqa: BLE001
+            raise Violation("survivor-call-result-differs", f"{where}: the survivors' calls raised {type(e).__name__}: {str(e)[:300]}", None)
+        if t.state.name != "COMPLETE" or t.values != [0.5] or t.user_attrs != {"k": [1, "x"]} or t.number != 0 or names != sorted(set(studies) | {"by-survivor"}):
+            raise Violation("survivor-call-result-differs", f"{where}: final fresh opener sees trial {t}, studies {names}", None)
+    finally:
+        for st_ in opened:
+            try:
+                st_.scoped_session.remove()
+                st_.engine.dispose()
+            except Exception:  # noqa: BLE001
+                pass
+        for suf in ("", "-journal", "-wal", "-shm"):
+            if os.path.exists(path + suf):
+                os.unlink(path + suf)
+    return {"killed": killed, "inside_constructor": "opened" not in lines}
+
+
+def run_sqlite_init(case: dict[str, Any], ctx: Ctx) -> None:
+    import optuna
+
+    warnings.simplefilter("ignore")
+    optuna.logging.set_verbosity(optuna.logging.ERROR)
+    try:
+        info = sqlite_init_once(case["kill_at"], ctx.tmpdir(), case["cached"])
+    except Violation as v:
+        v.case = dict(case)
+        raise
+    ctx.case(fp=["sqlite_init", case], nontrivial=bool(info.get("killed")), classes=["killed-inside-constructor" if info.get("inside_constructor") else "killed-after-constructor" if info.get("killed") else "ran-to-end"], sample=case)
+
+
+def enum_sqlite_init(ctx: Ctx, tier: str, shard: int, nshards: int) -> None:
+    import optuna
+
+    warnings.simplefilter("ignore")
+    optuna.logging.set_verbosity(optuna.logging.ERROR)
+    n = sqlite_init_once(None, ctx.tmpdir(), False)["n"]
+    jobs = [(k, c) for k in range(n) for c in (False, True)]
+    for i, (k, c) in enumerate(jobs):
+        if i % nshards == shard:
+            run_sqlite_init({"kill_at": k, "cached": c}, ctx)
+    ctx.event("sql_events_of_set_up_and_first_writes", n if shard == 0 else 0)
+    ctx.exhaustive_parts.append("SQLite set-up: every SQL event boundary of the first worker's RDBStorage(url) + create_new_study + create_new_trial on a new file is a kill point (raw and cached later openers)")
+
+
 CHECKS = [
     Check("journal", lambda tier: case_journal(), run_journal, {"quick": 16, "thorough": 640}, budget_s={"quick": 150, "thorough": 2400}, shrink=False, case_timeout=900),
     Check("sqlite_kill", lambda tier: case_sqlite(), run_sqlite, {"quick": 96, "thorough": 960}, budget_s={"quick": 120, "thorough": 2400}, shrink=False, case_timeout=900),
 ]
+ENUMS = [Enum("sqlite_init", enum_sqlite_init)]
+REPLAY = {"sqlite_init": run_sqlite_init}
